@@ -23,7 +23,7 @@ ID = "C08"
 LEVEL = "proof"
 PROPS_FILE = "C08.v"
 RUN_MODULE = "RunC08"
-TRANSLATOR_UNITS = []
+TRANSLATOR_UNITS = ["pysim"]
 SHARD = 40
 RULE = ("dedicated clock cases: every period in {1,2,3,7,10,1000,999983} x {1,2,3} fs with phases {default,0,1,half,period,"
         "random} observed through changed/posedge/negedge/tick waits with elapsed_time() at each wake-up; delay cases: "
